@@ -135,6 +135,7 @@ func checkPeiText(w *World, r *Report) {
 		for _, c := range cases {
 			r.Site("text.pei")
 			it := NewInterp(w)
+			it.UseInitValues = true
 			it.Fuel = 200000
 			st := it.NewState()
 			low0 := c.typ
@@ -183,6 +184,7 @@ func checkPeiText(w *World, r *Report) {
 			}
 			r.Site("text.pei")
 			it := NewInterp(w)
+			it.UseInitValues = true
 			it.Fuel = 200000
 			st := it.NewState()
 			low0 := c.typ
@@ -243,6 +245,7 @@ func checkTmsiText(w *World, r *Report) {
 		r.Site("text.tmsi")
 		what := map[uint64]string{2: "5G-GUTI", 4: "5G-S-TMSI"}[g.typ]
 		it := NewInterp(w)
+		it.UseInitValues = true
 		it.Fuel = 200000
 		st := it.NewState()
 		bo, bs := identityOctets(it, st, "buf", g.n, 0)
@@ -292,6 +295,7 @@ func checkTmsiText(w *World, r *Report) {
 		r.Site("text.amf-decimal")
 		what := map[uint64]string{2: "5G-GUTI", 4: "5G-S-TMSI"}[g.typ]
 		it := NewInterp(w)
+		it.UseInitValues = true
 		it.Fuel = 200000
 		st := it.NewState()
 		bo, bs := identityOctets(it, st, "buf", g.n, 0)
@@ -400,6 +404,7 @@ func checkSuciText(w *World, r *Report) {
 				what += " (odd MSIN)"
 			}
 			it := NewInterp(w)
+			it.UseInitValues = true
 			it.Fuel = 400000
 			st := it.NewState()
 			bo := it.NewObj("buf", true)
